@@ -539,6 +539,16 @@ func (g *G) randSelectSpec(d int, top bool) *SelectSpec {
 	if top && hasFrom {
 		if g.R.Intn(4) == 0 {
 			s.OrderBy = g.randOrder(d, 2)
+			// ordering by an output name: the alias of a select item, which is not a column reference
+			if g.ok("order-by-alias") {
+				for _, c := range s.Cols {
+					if c.Alias != "" && g.R.Intn(2) == 0 {
+						g.use("order-by-alias")
+						s.OrderBy = append(s.OrderBy, OrderItem{E: X{T: dump.N("Identifier", "Name", c.Alias), Toks: one(sym(c.Alias)), Prec: PrecPrimary}, Desc: g.R.Intn(2) == 0})
+						break
+					}
+				}
+			}
 		}
 		if g.R.Intn(5) == 0 {
 			l := g.R.Intn(100)
